@@ -75,6 +75,10 @@ fn view_json(view: &sfs_core::array::view::View<'_, f64>) -> Result<Value, Strin
     })
 }
 
+fn clone_view<'a>(it: &sfs_core::array::view::Iter<'a, f64>) -> Option<sfs_core::array::view::Iter<'a, f64>> {
+    Some(it.clone())
+}
+
 pub fn run(case: &Value, _ctx: &Ctx) -> Outcome {
     let mut out = Outcome::default();
     let shape = usizes(&case["shape"]);
@@ -90,9 +94,21 @@ pub fn run(case: &Value, _ctx: &Ctx) -> Outcome {
 
     // A history: len() then next(), call after call; every observation is compared.
     macro_rules! history {
-        ($iter:expr, $conv:expr) => {{
+        ($iter:expr, $conv:expr) => {
+            history!($iter, $conv, |_it| None)
+        };
+        ($iter:expr, $conv:expr, $clone:expr) => {{
             let mut iter = $iter;
             for (j, e) in h.iter().enumerate() {
+                let nth = e.get("n").and_then(|x| x.as_i64()).unwrap_or(-1);
+                if nth == -2 {
+                    // the rest of the history runs on a clone of the iterator
+                    match guarded(|| $clone(&iter)) {
+                        Ok(Some(c)) => iter = c,
+                        Ok(None) => { out.fail(format!("array/{kind}/clone-unsupported"), json!({"call": j})); break; }
+                        Err(m) => { out.fail(format!("array/{kind}/clone/panic"), json!({"call": j, "panic": m})); break; }
+                    }
+                }
                 let len = guarded(|| iter.len() as i64).unwrap_or(-1);
                 let want_len = e["len"].as_i64().unwrap();
                 out.check(
@@ -100,7 +116,9 @@ pub fn run(case: &Value, _ctx: &Ctx) -> Outcome {
                     || format!("array/{kind}/len"),
                     || json!({"call": j, "len_reported": len, "len_expected": want_len}),
                 );
-                let nth = e.get("n").and_then(|x| x.as_i64()).unwrap_or(-1);
+                if nth == -2 {
+                    continue;
+                }
                 let got = match guarded(|| if nth < 0 { iter.next() } else { iter.nth(nth as usize) }) {
                     Ok(Some(x)) => match $conv(x) {
                         Ok(v) => R::Some(v),
@@ -169,7 +187,7 @@ pub fn run(case: &Value, _ctx: &Ctx) -> Outcome {
             let i = obj["i"].as_u64().unwrap() as usize;
             match guarded(|| array.get_axis(Axis(a), i)) {
                 Ok(Some(view)) => match guarded(|| view.iter()) {
-                    Ok(it) => history!(it, |x: &f64| Ok::<_, String>(json!(*x as u64))),
+                    Ok(it) => history!(it, |x: &f64| Ok::<_, String>(json!(*x as u64)), clone_view),
                     Err(m) => out.fail("array/view/iter-panic", json!({"panic": m})),
                 },
                 Ok(None) => out.fail("array/view/get_axis-none", json!({"a": a, "i": i})),
